@@ -17,11 +17,15 @@ import (
 // PolicyCase is one program of the Policy family with its rows.
 type PolicyCase struct {
 	Case
-	Kind     string   // "index" | "op" | "uninit"
-	Form     string   // shape/path of the access, or the operator
-	Space    string   // address space of the indexed object ("" for op)
-	Op       string   // access operation (read, write, casg, ...)
-	IdxT     string   // i32 | u32 index type
+	Kind  string // "index" | "op" | "uninit"
+	Form  string // shape/path of the access, or the operator
+	Space string // address space of the indexed object ("" for op)
+	Op    string // access operation (read, write, casg, ...)
+	IdxT  string // i32 | u32 index type
+	// Entry is the WGSL entry point to execute ("" = main).  For modules with several entry points Prog (what the
+	// specification runs) marks only Entry as the entry function, Source (what naga compiles) marks them all.
+	Entry    string
+	Source   wg.N
 	RowClass []string // per row: class of the hostile value(s)
 	OOB      []bool   // per row: some dynamic index is out of range
 }
@@ -162,6 +166,13 @@ func policyShapes() []pshape {
 		{name: "S.arr[1].m[i][j]", structs: nested, ty: wg.StructT("S"), path: []pstep{mem(1, "arr"), cst(1), mem(1, "m"), dyn(0), dyn(1)}, spaces: allSpaces, floaty: true},
 		{name: "S.arr[i].w[j].x", structs: nested, ty: wg.StructT("S"), path: []pstep{mem(1, "arr"), dyn(0), mem(2, "w"), dyn(1), cst(0)}, spaces: allSpaces, floaty: true},
 		{name: "arr2d[i][j]", ty: wg.Arr(wg.Arr(wg.I32, 3), 2), path: []pstep{dyn(0), dyn(1)}, spaces: nonUniform},
+		// the SAME index value at two levels whose extents differ (inner larger than outer and the reverse)
+		{name: "mat3x4[i][i]", ty: wg.Mat(3, 4, wg.F32), path: []pstep{dyn(0), dyn(0)}, spaces: allSpaces, floaty: true},
+		{name: "mat4x2[i][i]", ty: wg.Mat(4, 2, wg.F32), path: []pstep{dyn(0), dyn(0)}, spaces: allSpaces, floaty: true},
+		{name: "a2d4x8[i][i]", ty: wg.Arr(wg.Arr(wg.I32, 8), 4), path: []pstep{dyn(0), dyn(0)}, spaces: nonUniform},
+		{name: "a2d5x2[i][i]", ty: wg.Arr(wg.Arr(wg.I32, 2), 5), path: []pstep{dyn(0), dyn(0)}, spaces: nonUniform},
+		{name: "S.arr[i].v[i]", structs: nested, ty: wg.StructT("S"), path: []pstep{mem(1, "arr"), dyn(0), mem(0, "v"), dyn(0)}, spaces: allSpaces, floaty: true},
+		{name: "S.arr[i].m[i][j]", structs: nested, ty: wg.StructT("S"), path: []pstep{mem(1, "arr"), dyn(0), mem(1, "m"), dyn(0), dyn(1)}, spaces: allSpaces, floaty: true},
 		{name: "rtarr[i]", ty: wg.Arr(wg.I32, 0), path: []pstep{dyn(0)}, spaces: storageOnly},
 		{name: "R.data[i].y", structs: []wg.N{r}, ty: wg.StructT("R"), path: []pstep{mem(1, "data"), dyn(0), cst(1)}, spaces: storageOnly},
 		{name: "R.data[i][j]", structs: []wg.N{r}, ty: wg.StructT("R"), path: []pstep{mem(1, "data"), dyn(0), dyn(1)}, spaces: storageOnly},
@@ -347,6 +358,32 @@ func IndexGrid(n int) ([]int32, []string) {
 	return vals, cls
 }
 
+// IndexDesc names one program of the index half without building it.
+type IndexDesc struct{ Shape, Space, Op, IdxT, Desc string }
+
+// PolicyIndexDescs lists every program of the index half (for stratified sampling).
+func PolicyIndexDescs() []IndexDesc {
+	var out []IndexDesc
+	for _, sh := range policyShapes() {
+		sd := structDefs{}
+		for _, s := range sh.structs {
+			sd[wg.S(s, "name")] = s
+		}
+		t := sh.ty
+		for _, st := range sh.path {
+			t, _ = stepType(sd, t, st)
+		}
+		for _, space := range sh.spaces {
+			for _, op := range policyOps(t, space, 0) {
+				for _, idxT := range []string{"i32", "u32"} {
+					out = append(out, IndexDesc{sh.name, space, op, idxT, fmt.Sprintf("%s %s %s %s", sh.name, space, op, idxT)})
+				}
+			}
+		}
+	}
+	return out
+}
+
 // PolicyIndexCases enumerates the index half of the Policy family.  keep decides (by seeded sampling) which programs
 // are built; pass nil for all.
 func PolicyIndexCases(rng *rand.Rand, keep func(desc string) bool) []PolicyCase {
@@ -386,7 +423,17 @@ func PolicyIndexCases(rng *rand.Rand, keep func(desc string) bool) []PolicyCase 
 }
 
 func buildIndexCase(rng *rand.Rand, sh pshape, sd structDefs, leafT wg.N, lens []int, space, op, idxT string) (PolicyCase, bool) {
-	nd := len(lens)
+	// operand number of every dynamic step (one operand may subscript several levels: `m[i][i]`) and the operand count
+	var stepOp []int
+	for _, st := range sh.path {
+		if st.kind == "dyn" {
+			stepOp = append(stepOp, st.m)
+		}
+	}
+	nd := 0
+	for _, o := range stepOp {
+		nd = max(nd, o+1)
+	}
 	it := scalarT(idxT)
 	isBuf := space == "storage" || space == "storage_r" || space == "uniform"
 	inpT := wg.Arr(it, max(nd, 1))
@@ -619,12 +666,57 @@ func buildIndexCase(rng *rand.Rand, sh pshape, sd structDefs, leafT wg.N, lens [
 				ls[k] = rc
 			}
 		}
+		// per operand: the hostile grid of every extent it subscripts (classes name the extent when there are several)
 		grids := make([][]int32, nd)
 		gcls := make([][]string, nd)
-		for k := range ls {
-			grids[k], gcls[k] = IndexGrid(ls[k])
+		minLen := make([]int, nd)
+		for o := 0; o < nd; o++ {
+			var exts []int
+			for k, so := range stepOp {
+				if so == o {
+					dup := false
+					for _, e := range exts {
+						dup = dup || e == ls[k]
+					}
+					if !dup {
+						exts = append(exts, ls[k])
+					}
+					if minLen[o] == 0 || ls[k] < minLen[o] {
+						minLen[o] = ls[k]
+					}
+				}
+			}
+			seen := map[int32]bool{}
+			for _, e := range exts {
+				v, c := IndexGrid(e)
+				for i := range v {
+					if seen[v[i]] {
+						continue
+					}
+					seen[v[i]] = true
+					grids[o] = append(grids[o], v[i])
+					if len(exts) > 1 {
+						gcls[o] = append(gcls[o], fmt.Sprintf("%s/%d", c[i], e))
+					} else {
+						gcls[o] = append(gcls[o], c[i])
+					}
+				}
+			}
+			if len(exts) > 1 { // everything between the extents
+				lo, hi := exts[0], exts[0]
+				for _, e := range exts {
+					lo, hi = min(lo, e), max(hi, e)
+				}
+				for x := lo; x < hi; x++ {
+					if !seen[int32(x)] {
+						seen[int32(x)] = true
+						grids[o] = append(grids[o], int32(x))
+						gcls[o] = append(gcls[o], "between")
+					}
+				}
+			}
 		}
-		inr := func(k, salt int) int32 { return int32((salt + k) % ls[k]) }
+		inr := func(o, salt int) int32 { return int32((salt + o) % minLen[o]) }
 		for k := 0; k < nd; k++ {
 			for gi, v := range grids[k] {
 				if rt && ci > 0 && gi%2 == 1 {
@@ -660,9 +752,8 @@ func buildIndexCase(rng *rand.Rand, sh pshape, sd structDefs, leafT wg.N, lens [
 				ls[k] = c.n
 			}
 		}
-		for k := range c.v {
-			u := uint32(c.v[k])
-			if u >= uint32(ls[k]) {
+		for k, o := range stepOp {
+			if uint32(c.v[o]) >= uint32(ls[k]) {
 				c.oob = true
 			}
 		}
